@@ -75,7 +75,7 @@ func runC11(cfg *config, res *monitor.Result) {
 		runC11Concurrent(cfg, res)
 		return
 	}
-	nvals := 6
+	nvals := 12
 	if cfg.thorough() {
 		nvals = 120
 	}
@@ -316,7 +316,7 @@ func runC11(cfg *config, res *monitor.Result) {
 // runC11Concurrent: G goroutines race on the first classification of types (cache emptied between
 // rounds by the verif hook); every goroutine must observe the correct class. Meant for the -race build.
 func runC11Concurrent(cfg *config, res *monitor.Result) {
-	rounds := 40
+	rounds := 100
 	if cfg.thorough() {
 		rounds = 600
 	}
